@@ -100,6 +100,24 @@ func main() {
 				c = genC15(r, gidx, *tier)
 			}
 			runAmoStruct(e, idx, c)
+		case "G14":
+			var c *PBOpCase
+			if desc != "" {
+				c = &PBOpCase{}
+				mustJSON(desc, c)
+			} else {
+				c = genPBOp(r, gidx, *tier)
+			}
+			runPBOp(e, idx, c)
+		case "G08":
+			var c *UPCase
+			if desc != "" {
+				c = &UPCase{}
+				mustJSON(desc, c)
+			} else {
+				c = genUP(r, gidx, *tier)
+			}
+			runUP(e, idx, c)
 		case "G02":
 			var c *GoirCase
 			if desc != "" {
